@@ -1,6 +1,7 @@
 mod canon;
 mod consts;
 mod ctx;
+mod fam_codec;
 mod fam_frame;
 mod gen;
 mod util;
@@ -40,6 +41,8 @@ fn main() {
         "parse" => fam_frame::parse(&mut ctx),
         "truncate" => fam_frame::truncate(&mut ctx),
         "alter" => fam_frame::alter(&mut ctx),
+        "codec" => fam_codec::codec(&mut ctx),
+        "entry" => fam_codec::entry(&mut ctx),
         f => {
             eprintln!("unknown family {f}");
             std::process::exit(2);
